@@ -1,7 +1,7 @@
 """C04 - all validation entry points and modes agree on one verdict.
 
 For every document of the catalogue (mc/gen/docs_c04.py: the minimal valid and minimal invalid document of every
-fault class, over 14 small schemas, XSD 1.0 and 1.1; plus the documents with exactly k errors) the complete
+fault class, over 17 small schemas, XSD 1.0 and 1.1; plus the documents with exactly k errors) the complete
 product  entry point x validation mode x source kind  is executed.  The reference model is the catalogue itself:
 the verdict of each document is fixed by its construction, and the statement of the property gives the relations
 between the observations of the different entry points:
@@ -33,7 +33,7 @@ from mc.explore import procexec_c04 as PX
 
 ID = 'C04'
 TITLE = 'All validation entry points and modes agree on one verdict'
-RULE = ('every catalogue document (minimal valid / minimal invalid document of every fault class of 14 schemas, '
+RULE = ('every catalogue document (minimal valid / minimal invalid document of every fault class of 17 schemas, '
         'XSD 1.0 and 1.1, and the documents with exactly k errors, k in {0,1,2,255,256,257,511,512}) x every entry '
         'point (schema methods, package functions with a schema object / a schema path / xsi location hints, '
         'XsdElement methods, XmlDocument, console entry) x mode (strict, lax, skip) x source kind; states = '
@@ -54,6 +54,13 @@ ASSUMPTIONS = [
     'errors are compared as (class name, reason, path) and only between calls on the same source kind',
     'decoded data is compared after a structural normalisation that keeps the Python type of every leaf',
     'the console entry is run with PYTHONPATH set to the repository under test; the exit status is the verdict',
+    'a document whose verdict the XSD text and the uniform white-space handling of the library of mixed content decide '
+    'differently (blank text in a mixed element with a fixed value) is judged on the agreement of the entry points '
+    'with schema.is_valid() only',
+    'a QName prefix declared on the element at the lazy depth is not judged for lazy sources (lazy = eager is another '
+    'property); disagreements are counted',
+    'documents with an xsi:schemaLocation hint of their own are not given to the functions that are called without '
+    'a schema (the hint then legitimately selects the schema)',
 ]
 BUDGET_S = {'quick': 1500, 'thorough': 3000}
 VERSIONS = {'1.0': XMLSchema10, '1.1': XMLSchema11}
@@ -271,6 +278,7 @@ def source_kinds(part, tier):
 def plan(part, tier, S, cls, fx, doc):
     """The list of (layer, entry, mode, data kind, source kind, source text, source path, callable)."""
     label, fclass, text, valid, pfx = doc
+    text = fx['texts'][label]
     path = fx['docs'][label]
     out = []
 
@@ -315,8 +323,16 @@ def short(t):
 def run_doc(S, cls, version, schema_name, doc, part, tier, fx):
     """Executes the plan of one document and judges it. Returns (discs, stats, situations)."""
     label, fclass, text, valid, pfx = doc
+    text = fx['texts'][label]
     base = 'C04|%s|%s|%s' % (version, schema_name, label)
-    stats = {'calls': 0, 'judged': 0, 'skipped_et_data': 0, 'skip_undeclared_root': 0}
+    stats = {'calls': 0, 'judged': 0, 'skipped_et_data': 0, 'skip_undeclared_root': 0, 'lazy_prefix': 0,
+             'contested': 0}
+    says = 'document is'
+    if valid is None:
+        # contested verdict: the entry points are judged against schema.is_valid() on the text
+        valid = S.is_valid(text)
+        says = 'schema.is_valid(text) says'
+        stats['contested'] = 1
     situations = set()
     obs = []
     for layer, entry, mode, dk, kind, stext, spath, fn in plan(part, tier, S, cls, fx, doc):
@@ -336,7 +352,7 @@ def run_doc(S, cls, version, schema_name, doc, part, tier, fx):
     details = {}
 
     def note(rule, who, observed, kind):
-        found.setdefault((rule, who, observed), []).append(kind)
+        found.setdefault((rule, who, observed.replace(fx['dir'], '@DIR@')), []).append(kind)
 
     reference = {}
 
@@ -355,9 +371,11 @@ def run_doc(S, cls, version, schema_name, doc, part, tier, fx):
             continue
         if o['v'] is not None:
             stats['judged'] += 1
-            if o['v'] != valid:
-                note('verdict', who, 'reports %s, document is %s'
-                     % ('valid' if o['v'] else 'invalid', 'valid' if valid else 'invalid'), kind)
+            if o['v'] != valid and fclass == 'lazy-prefix' and kind in LAZY_KINDS:
+                stats['lazy_prefix'] += 1        # a prefix declared at the lazy depth: C06's property, only counted
+            elif o['v'] != valid:
+                note('verdict', who, 'reports %s, %s %s'
+                     % ('valid' if o['v'] else 'invalid', says, 'valid' if valid else 'invalid'), kind)
         elif 'n' in o and fclass == 'undeclared-root':
             stats['skip_undeclared_root'] += 1       # nothing can be decoded: the library yields the reason instead
         elif 'n' in o:
@@ -390,13 +408,19 @@ def run_doc(S, cls, version, schema_name, doc, part, tier, fx):
                     ' / '.join(short(t) for t in sorted(g['strict'], key=str)),
                     ' / '.join(short(t) for t in sorted(g['lax'], key=str)))
                 note('first-error', grp, observed, kind)
-                details[(grp, observed)] = ' | '.join(
+                details[(grp, observed.replace(fx['dir'], '@DIR@'))] = ' | '.join(
                     '%s %s by %s' % (m, short(t)[:60], ','.join(sorted(set(v))))
                     for m in ('strict', 'lax') for t, v in sorted(g[m].items(), key=str))
 
+    # One key per (rule, observation, set of failing source kinds), naming the entry points that fail that way.
+    # The source kinds that only the thorough tier uses are keyed apart, so that every key of a quick run is
+    # also a key of the thorough run.
+    extra = set(THOROUGH_FILE_KINDS + THOROUGH_MEM_KINDS) if part in ('file', 'mem') else set()
     merged = {}
     for (rule, who, observed), kinds in sorted(found.items()):
-        merged.setdefault((rule, observed, ','.join(sorted(set(kinds)))), []).append(who)
+        for group in (sorted(set(kinds) - extra), sorted(set(kinds) & extra)):
+            if group:
+                merged.setdefault((rule, observed, ','.join(group)), []).append(who)
     discs = []
     for (rule, observed, kinds), whos in sorted(merged.items()):
         key = '%s|%s|%s|%s|sources=%s' % (base, rule, ','.join(whos), observed, kinds)
@@ -471,6 +495,8 @@ def run_cli_case(case, fx, S):
         label = case['labels'][0]
         doc = [d for d in e['docs'] if d[0] == label][0]
         valid = doc[3]
+        if valid is None:
+            valid = S.is_valid(fx['texts'][label])
         if e['schema'] == 'k':
             k = int(label.split('=')[1])
             counted = len(list(S.iter_errors(doc[2])))
@@ -505,17 +531,22 @@ def fixture(schema_name, version):
     e = G.entry(schema_name)
     d = tempfile.mkdtemp(prefix='c04_fx_', dir='/var/tmp')
     try:
-        fx = {'dir': d, 'xsd': os.path.join(d, '%s.xsd' % schema_name), 'docs': {}, 'hints': {}}
+        fx = {'dir': d, 'xsd': os.path.join(d, '%s.xsd' % schema_name), 'docs': {}, 'hints': {}, 'texts': {}}
         with open(fx['xsd'], 'w', encoding='utf-8') as f:
             f.write(e['xsd'])
+        for name, content in e['files'].items():
+            with open(os.path.join(d, name), 'w', encoding='utf-8') as f:
+                f.write(content)
         target = re.search(r'targetNamespace="([^"]*)"', e['xsd'])
         target = target.group(1) if target else ''
         for n, (label, fclass, text, valid, pfx) in enumerate(e['docs']):
+            text = text.replace('@DIR@', d)
             p = os.path.join(d, 'doc%03d.xml' % n)
             with open(p, 'w', encoding='utf-8') as f:
                 f.write(text)
             fx['docs'][label] = p
-            if G.root_target(text) == target:
+            fx['texts'][label] = text
+            if G.root_target(text) == target and 'schemaLocation' not in text:
                 # a location hint can only name the schema of the root element's own namespace
                 ht = G.with_hint(text, 'file://' + fx['xsd'], target)
                 hp = os.path.join(d, 'hint%03d.xml' % n)
@@ -555,8 +586,8 @@ def run_shard(shard, acc):
     kind, tier, schema_name, version = shard[:4]
     e = G.entry(schema_name)
     cls = VERSIONS[version]
-    S = cls(e['xsd'])
     with fixture(schema_name, version) as fx:
+        S = cls(fx['xsd'])
         if kind == 'cli':
             for case in shard[4]:
                 with acc.guard(300):
@@ -583,7 +614,10 @@ def run_shard(shard, acc):
             acc.cnt('entry_point_calls', stats['calls'])
             acc.cnt('et_data_not_compared_namespace_declarations', stats['skipped_et_data'])
             acc.cnt('skip_mode_not_judged_undeclared_root', stats['skip_undeclared_root'])
-            acc.out('%s:%s:%s' % (part, 'valid' if doc[3] else 'invalid', 'disc' if discs else 'agree'))
+            acc.cnt('lazy_prefix_at_lazy_depth_disagreements_not_judged', stats['lazy_prefix'])
+            acc.cnt('contested_verdict_documents_judged_on_agreement_only', stats['contested'])
+            acc.out('%s:%s:%s' % (part, {True: 'valid', False: 'invalid', None: 'contested'}[doc[3]],
+                                  'disc' if discs else 'agree'))
             if not discs and doc is e['docs'][lo] and part == 'mem':
                 acc.sample({'schema': schema_name, 'version': version, 'label': doc[0], 'class': doc[1],
                             'document': doc[2][:200], 'valid': doc[3], 'calls': stats['calls'],
@@ -601,8 +635,8 @@ def finish(tier, seed, total):
 def replay(case):
     e = G.entry(case['schema'])
     cls = VERSIONS[case['version']]
-    S = cls(e['xsd'])
     with fixture(case['schema'], case['version']) as fx:
+        S = cls(fx['xsd'])
         if 'cli' in case:
             return run_cli_case(case, fx, S)[0]
         doc = [d for d in e['docs'] if d[0] == case['label']][0]
